@@ -104,7 +104,7 @@ def prepass(text, log):
     if k:
         log.append(f"R7:identity::<fn(&Meta)->Result<_>>(f)(x) -> f(x) x{k}")
     text, k = re.subn(r"(crate::darling::export::NestedMeta::parse_meta_list\((?:[^()]|\([^()]*\))*\))\?",
-                      r"(match \1 { Ok(__v) => __v, Err(__e) => return Err(crate::darling::Error::from_syn(__e)) })", text)
+                      r"(match \1 { Ok(__v) => __v, Err(__e) => { crate::__live_check(); return Err(crate::darling::Error::from_syn(__e)) } })", text)
     if k:
         log.append(f"R13b:`?` on a syn::Result made explicit (match + Error::from) x{k}")
     text, k = re.subn(r"let __items = &__items;", "let __items = __items.as_slice();", text)
@@ -224,6 +224,16 @@ def declaration(d):
         out += f"{f['ident']}: {ty}, "
     out += "}"
     return out
+
+
+DISCIPLINE = [
+    "    //@ head: let ghost mut __live: int = 0;",
+    "    //@ replace R13a opt: crate::darling::Error::accumulator() ==> { proof { __live = __live + 1; } crate::darling::Error::accumulator() }",
+    "    //@ replace R13f opt: __errors.finish() ==> { proof { __live = __live - 1; } __errors.finish() }",
+    "    //@ replace R13c opt: crate::__live_check(); ==> proof { assert(__live == 0); }",
+    "    //@ guard_try: __live == 0",
+    "    //@ pre_tail: proof { assert(__live == 0); }",
+]
 
 
 # ------------------------------------------------------------------------------------------------ oracle text
@@ -505,6 +515,7 @@ def struct_template(d, gen_id, mode="full", ctx=None):
     # the real emitted function under contract
     w(f"impl<{impl_gen}> {n}<{tps}> {{")
     w(f"    //@fn @gen:{gen_id}.rs :: impl crate::darling::FromMeta for {n}<{tps}> :: fn from_list")
+    w("    #[verifier::loop_isolation(false)]")
     w(f"    pub fn from_list(__items: &[crate::darling::export::NestedMeta]) -> (r: crate::darling::Result<Self>)")
     if mode == "success":
         w(f"        ensures fin_{n}::<{tps}>(run_{n}::<{tps}>(__items@)) is Ok ==> r == fin_{n}::<{tps}>(run_{n}::<{tps}>(__items@)),")
@@ -514,7 +525,7 @@ def struct_template(d, gen_id, mode="full", ctx=None):
     else:
         w(f"        ensures r == fin_{n}::<{tps}>(run_{n}::<{tps}>(__items@)),")
     w("    //@body")
-    for x in D:
+    for x in D + DISCIPLINE:
         w(x)
     w("    //@end")
     w("}")
@@ -841,7 +852,7 @@ def enum_template(d, gen_id, mode="full"):
     w(f"    pub fn from_list(__outer: &[crate::darling::export::NestedMeta]) -> (r: crate::darling::Result<Self>)")
     w(f"        ensures r == list_{n}::<{tps}>(__outer@),")
     w("    //@body")
-    for x in directives:
+    for x in directives + DISCIPLINE:
         w(x)
     w("    //@end")
     w(f"    //@fn @gen:{gen_id}.rs :: impl crate::darling::FromMeta for {n}<{tps}> :: fn from_string")
@@ -1023,6 +1034,8 @@ def elem_template(d, gen_id, mode="full"):
         for x in D:
             w(x)
     w("    //@ replace R4v opt: vec![] ==> Vec::new()")
+    for x in DISCIPLINE:
+        w(x)
     w("    //@end")
     w("}")
     out = "\n".join(o)
